@@ -114,6 +114,9 @@ func (s *Session) evalBoolClauseAt(fr *Frame, c Clause, st *State, at *ssa.Basic
 	se := &SpecEnv{sess: s, pkg: fr.fn.Pkg.Pkg, vars: s.frameEnv(fr), st: st, old: fr.old, fr: fr}
 	if at != nil {
 		se.lookup = s.localLookupAt(fr, st, at, atIdx)
+		if fr.loopEntry != nil {
+			se.pre = fr.loopEntry[at]
+		}
 	}
 	defer func() {
 		if r := recover(); r != nil {
@@ -165,6 +168,7 @@ func (e *Engine) verifyFunc(c *Contract) (rep *FuncReport) {
 	// the ghost event clock is relative to the function entry: nothing has happened yet
 	s.ghostSet(st, "evclock", zeroOfSort(arrSort(SInt)))
 	s.ghostSet(st, "evlast", zeroOfSort(arrSort(SInt)))
+	s.ghostSet(st, "evcount", zeroOfSort(arrSort(SInt)))
 	fr := &Frame{sess: s, fn: fn, depth: 0, top: true, contract: c, stack: []*ssa.Function{fn}, oblPfx: short, nSafety: map[string]int{}}
 	for _, p := range fn.Params {
 		v := Val{Typ: p.Type()}
@@ -181,6 +185,12 @@ func (e *Engine) verifyFunc(c *Contract) (rep *FuncReport) {
 		s.note("receiver of %s assumed non-nil", fn.String())
 	}
 	fr.old = st.clone()
+	for _, cl := range append(append([]Clause{}, c.Requires...), c.Ensures...) {
+		if cl.Mode != "" {
+			rep.Err = "contract modes (@" + cl.Mode + ") are only supported on assumed contracts: " + key
+			return
+		}
+	}
 	for _, rq := range c.Requires {
 		f := s.evalBoolClause(fr, rq, st, nil)
 		s.assume(f)
